@@ -1,4 +1,5 @@
 import Verif.Proofs.StoredCbor
+import Verif.Proofs.Stored
 import Verif.Model.Codec.Stored
 import Verif.Model.Codec.StoredPinned
 import Verif.Gen.StoredTags
@@ -31,5 +32,77 @@ theorem cbor_roundtrip (i : Item) (rest : Bytes) (hw : i.wf = true) : decode (en
   Verif.Proofs.StoredCbor.decode_enc i rest hw
 
 example : (Item.tag 200 (.array [.uint 1, .text [102, 111, 111]])).wf = true := by decide
+
+
+/-- FX: within each decoder dispatch the regenerated tag numbers are pairwise different, fit a CBOR
+    head, and the value tags avoid the bignum tags (2, 3) and atree's reserved range (240–255). -/
+theorem tags_distinct : genTags.ok = true := by decide
+
+/-- **Round trip of storable values** (tag table of the current sources, any Unicode environment):
+    for every well-formed storable `v` and any following bytes, `DecodeStorable` of the encoding of `v`
+    returns `v` and leaves exactly the following bytes unread; and whatever the decoder returns
+    re-encodes to the identical bytes. -/
+theorem roundtrip (E : Env) (v : Stored) (rest : Bytes) (hw : v.wf genTags E = true) :
+    decodeStored genTags E (encodeStored genTags v ++ rest) = .ok (v, rest) ∧
+    ∀ v' r, decodeStored genTags E (encodeStored genTags v ++ rest) = .ok (v', r) →
+      encodeStored genTags v' ++ r = encodeStored genTags v ++ rest := by
+  have h := Verif.Proofs.Stored.decodeStored_encodeStored (Verif.Proofs.Stored.tagsOk_of_ok tags_distinct) E hw rest
+  refine ⟨h, ?_⟩
+  intro v' r h'
+  rw [h] at h'
+  cases h'
+  rfl
+
+/-- **Round trip of static types** (`StaticTypeToBytes` / `StaticTypeFromBytes`). -/
+theorem statictype_roundtrip (t : SType) (rest : Bytes) (hw : t.wf genTags = true) :
+    decodeType genTags (encodeType genTags t ++ rest) = .ok (t, rest) ∧
+    ∀ t' r, decodeType genTags (encodeType genTags t ++ rest) = .ok (t', r) →
+      encodeType genTags t' ++ r = encodeType genTags t ++ rest := by
+  have h := Verif.Proofs.Stored.decodeType_encodeType (Verif.Proofs.Stored.tagsOk_of_ok tags_distinct) hw rest
+  refine ⟨h, ?_⟩
+  intro t' r h'
+  rw [h] at h'
+  cases h'
+  rfl
+
+/-- The same for *any* tag table that passes `Tags.ok`: appending a new tag or replacing a placeholder
+    (the only changes the source comments allow) cannot break the round trip. -/
+theorem roundtrip_any_tags (T : Tags) (hT : T.ok = true) (E : Env) (v : Stored) (rest : Bytes)
+    (hw : v.wf T E = true) : decodeStored T E (encodeStored T v ++ rest) = .ok (v, rest) :=
+  Verif.Proofs.Stored.decodeStored_encodeStored (Verif.Proofs.Stored.tagsOk_of_ok hT) E hw rest
+
+/-- Encodings never collide: two well-formed storables with the same bytes are the same value. -/
+theorem encode_injective (E : Env) (v w : Stored) (hv : v.wf genTags E = true) (hw : w.wf genTags E = true)
+    (h : encodeStored genTags v = encodeStored genTags w) : v = w := by
+  have h1 := (roundtrip E v [] hv).1
+  have h2 := (roundtrip E w [] hw).1
+  rw [h, h2] at h1
+  cases h1
+  rfl
+
+/-- Static type encodings never collide. -/
+theorem statictype_encode_injective (s t : SType) (hs : s.wf genTags = true) (ht : t.wf genTags = true)
+    (h : encodeType genTags s = encodeType genTags t) : s = t := by
+  have h1 := (statictype_roundtrip s [] hs).1
+  have h2 := (statictype_roundtrip t [] ht).1
+  rw [h, h2] at h1
+  cases h1
+  rfl
+
+/-! Non-vacuity: concrete well-formed values of several kinds (Unicode environment: identity
+    normalisation, every non-empty string a character). -/
+def exEnv : Env := ⟨id, fun s => !s.isEmpty⟩
+
+example : (Stored.path 1 [102, 111, 111]).wf genTags exEnv = true := by decide
+example : (Stored.some 3 (.num .int128 (-170141183460469231731687303715884105728))).wf genTags exEnv = true := by decide
+example : (Stored.num .uint256 (2 ^ 256 - 1)).wf genTags exEnv = true := by decide
+example : (Stored.cap (.id 1 7 (.reference (.entSet 0 [[65], [66]]) (.composite (.address 1 [67]) [67, 46, 82]) none))).wf
+    genTags exEnv = true := by decide
+example : (Stored.storageCapCon (.reference .unauthorized (.intersection [(.address 1 [67], [67, 46, 73])]) none) 3 1 [118]).wf
+    genTags exEnv = true := by decide
+example : (SType.dictionary (.primitive 8) (.optional (.constantSized 3 (.capability (.primitive 36))))).wf genTags = true := by
+  decide
+/-- the deprecated primitive code is *not* well-formed: it decodes to `Capability` without a borrow type -/
+example : (SType.primitive Verif.Gen.StoredTags.prim_Capability).wf genTags = false := by decide
 
 end Verif.Properties.C44
